@@ -313,6 +313,7 @@ impl <N: NumericOps> ArraySumProdDiff<N> for Array<N> {
     }
 
     fn diff(&self, n: usize, axis: Option<isize>, prepend: Option<Self>, append: Option<Self>) -> Result<Self, ArrayError> {
+        if let Some(axis) = axis { self.axis_in_bounds(self.normalize_axis(axis))?; }
         if n == 0 {
             Self::empty()
         } else if self.ndim()? == 1 {
